@@ -19,10 +19,18 @@ func VerifC15OverlapExt() {
 	}
 	var got bool
 	var err error
-	if arr == 0 {
+	switch arr {
+	case 0:
 		got, err = CheckExtendedSpatialIdsOverlap(a, b)
-	} else {
+	case 1:
 		got, err = CheckExtendedSpatialIdsArrayOverlap([]string{a}, []string{b})
+	default: // the malformed ID is the second element of its list, behind a well-formed ID that overlaps nothing
+		far := "3/7/7/3/5"
+		if side == 0 {
+			got, err = CheckExtendedSpatialIdsArrayOverlap([]string{far, a}, []string{b})
+		} else {
+			got, err = CheckExtendedSpatialIdsArrayOverlap([]string{a}, []string{far, b})
+		}
 	}
 	vAssert(err != nil, "a malformed extended ID is an error")
 	vAssert(!got, "and the answer is false")
@@ -42,10 +50,18 @@ func VerifC15OverlapSpatial() {
 	}
 	var got bool
 	var err error
-	if arr == 0 {
+	switch arr {
+	case 0:
 		got, err = CheckSpatialIdsOverlap(a, b)
-	} else {
+	case 1:
 		got, err = CheckSpatialIdsArrayOverlap([]string{a}, []string{b})
+	default:
+		far := "3/3/7/7"
+		if side == 0 {
+			got, err = CheckSpatialIdsArrayOverlap([]string{far, a}, []string{b})
+		} else {
+			got, err = CheckSpatialIdsArrayOverlap([]string{a}, []string{far, b})
+		}
 	}
 	vAssert(err != nil, "a malformed spatial ID is an error")
 	vAssert(!got, "and the answer is false")
